@@ -22,7 +22,7 @@ META = {
     "technique": "single-source differential execution Wa vs Go + Lean 4 specifications/theorems for codecs, bits, hashes, integer conversion, sorting",
 }
 
-VOLUME = {"quick": {"rand": 8, "cap": 90, "deadline": 150}, "thorough": {"rand": 60, "cap": 600, "deadline": 900}}
+VOLUME = {"quick": {"rand": 8, "cap": 90, "deadline": 120}, "thorough": {"rand": 60, "cap": 600, "deadline": 300}}
 MAX_SRC = 260000          # bytes of generated source per program (Wa compiles the imported packages once per program)
 
 
